@@ -8,7 +8,7 @@
      well-formed, rnorm replaces it by the zero value the decoder produces (a DataValue always carries an allocated
      Variant);
    - byte strings inside NodeIDs and Variants: empty and nil both decode to nil (Buffer.ReadBytes);
-   - Variant: type id 1..25; array length -1 (nil) .. MaxVariantArrayLength; with the dimensions bit every dimension is
+   - Variant: type id 1..25; at most MaxVariantArrayDimensions dimensions; array length -1 (nil) .. MaxVariantArrayLength; with the dimensions bit every dimension is
      >= 1, their product (no int32 overflow) equals the array length and the value is the rectangular nesting of that
      shape (what sliceDim accepts); zero dimensions are outside (C01_zero_dim_rejected);
    - ExtensionObject: nil pointer (encoded as the two-byte null id, mask 0); mask 0; body nil; XML body; or a body
@@ -99,7 +99,7 @@ Definition variant_hdr_ok (m alen dl : Z) (dims : list Z) (p : val) : bool :=
    else
      (-1 <=? alen) && (alen <=? max_variant_array_length) &&
      (if bit m 6
-      then (dl =? zlen dims) && (dl <=? max_int32) && forallb dim_ok dims &&
+      then (dl =? zlen dims) && (dl <=? max_variant_array_dimensions) && forallb dim_ok dims &&
            (if 0 <? dl then match dims_product dims 1 with Some c => c =? alen | None => false end else true)
       else (dl =? 0) && is_nil dims) &&
      (if dl <? 2
@@ -107,6 +107,24 @@ Definition variant_hdr_ok (m alen dl : Z) (dims : list Z) (p : val) : bool :=
       else shape_ok (map Z.to_nat dims) p)).
 
 Definition norm_vbytes (v : val) : val := match v with VBytes (Some []) => VBytes None | _ => v end.
+
+(* nesting depth: how many Variant / DataValue / DiagnosticInfo / ExtensionObject values are nested in each other along the
+   deepest path (what ua.MaxNestingLevel limits); a nil pointer only occurs as the nil ExtensionObject, which is encoded
+   and decoded as an (empty) extension object *)
+Fixpoint vdepth (v : val) : nat :=
+  let ld := fix go (l : list val) : nat := match l with [] => 0%nat | x :: r => Nat.max (vdepth x) (go r) end in
+  let od := fun (o : option val) => match o with None => 0%nat | Some x => vdepth x end in
+  match v with
+  | VSlice (Some l) => ld l
+  | VPtr (Some x) => vdepth x
+  | VPtr None => 1%nat
+  | VStruct l => ld l
+  | VDiag m _ _ _ _ _ _ i => S (if bit m 6 then od i else 0%nat)
+  | VDataValue m x _ _ _ _ _ => S (if bit m 0 then od x else 0%nat)
+  | VVariant _ _ _ _ p => S (od p)
+  | VExtObj m _ b => S (if m =? 0 then 0%nat else od b)
+  | _ => 0%nat
+  end.
 
 (* no extension object in the value carries a body that is an empty struct (known finding extobj-empty-struct) *)
 Definition is_empty_body (b : val) : bool := match b with VPtr (Some (VStruct [])) => true | _ => false end.
